@@ -26,7 +26,7 @@ MIN_NONTRIVIAL = {"quick": 250, "thorough": 5000}
 
 
 def gen_cases(tier: str, seed: int) -> List[Dict[str, Any]]:
-    n = 800 if tier == "quick" else 16000
+    n = 800 if tier == "quick" else 64000
     cases = []
     for i in range(n):
         rng = rng_for(seed, PROPERTY, i)
